@@ -335,7 +335,17 @@ namespace svmon
     SVMON_MOVE_CTOR_NX_ASSIGN_THROW (TAssignThrow)
   };
 
+  // 8. over-aligned (64) and large (sizeof 64): inline buffer and allocator blocks must honour the alignment
+  struct alignas (64) TAlign
+  {
+    SVMON_TRACKED_COMMON (TAlign)
+    SVMON_DEFAULT_CTOR (TAlign)
+    SVMON_COPY_OPS (TAlign)
+    SVMON_MOVE_OPS (TAlign, noexcept, (void) 0, (void) 0)
+  };
+
   template <typename T> struct is_tracked : std::false_type { };
+  template <> struct is_tracked<TAlign> : std::true_type { };
   template <> struct is_tracked<TAssignThrow> : std::true_type { };
   template <> struct is_tracked<TNx> : std::true_type { };
   template <> struct is_tracked<TThrow> : std::true_type { };
@@ -353,6 +363,7 @@ namespace svmon
   template <> struct flavour_name<TCopyOnly> { static const char *get () { return "TCopyOnly"; } };
   template <> struct flavour_name<TSwapThrow> { static const char *get () { return "TSwapThrow"; } };
   template <> struct flavour_name<TAssignThrow> { static const char *get () { return "TAssignThrow"; } };
+  template <> struct flavour_name<TAlign> { static const char *get () { return "TAlign"; } };
 
   // value_of: the model value of an element
   inline int value_of (int x) { return x; }
